@@ -181,6 +181,18 @@ def text_of(r):
     return out
 
 
+def wipe(d):
+    for name in os.listdir(d):
+        q = os.path.join(d, name)
+        if os.path.isdir(q) and not os.path.islink(q):
+            shutil.rmtree(q, ignore_errors=True)
+        else:
+            try:
+                os.remove(q)
+            except OSError:
+                pass
+
+
 def main():
     job = json.load(sys.stdin)
     W = job["work"]
@@ -210,8 +222,8 @@ def main():
                 pass
         except Exception:  # noqa
             pass
-    for leftover in os.listdir(root):
-        shutil.rmtree(os.path.join(root, leftover), ignore_errors=True)
+    wipe(root)
+    wipe(cwd)
     results = []
     for case in job["cases"]:
         res = {"id": case["id"]}
@@ -329,11 +341,8 @@ def main():
                 with open(p, "wb") as fh:
                     fh.write(canaries[p][0])
                 canaries[p] = (canaries[p][0], os.stat(p).st_mtime_ns)
-            for leftover in os.listdir(root):      # keep later cases independent
-                shutil.rmtree(os.path.join(root, leftover), ignore_errors=True)
-            for leftover in os.listdir(cwd):
-                q = os.path.join(cwd, leftover)
-                shutil.rmtree(q, ignore_errors=True) if os.path.isdir(q) else os.remove(q)
+            wipe(root)                             # keep later cases independent
+            wipe(cwd)
         except Exception as e:  # noqa
             import traceback
             res["harness_error"] = traceback.format_exc()[-1500:]
